@@ -96,6 +96,19 @@ def check(ctx):
     rnd = random.Random(ctx.seed)
     rl = [random_history(rnd) for _ in range(400 if ctx.tier == "quick" else 6000)]
     fw.run_suite(ctx, exe, "S-tg/random", rl, "tag edit history", relcheck=relcheck)
+    # the same relation when an allocation is refused in the middle of a history: a call that reports failure leaves the
+    # stored bytes and the recorded length exactly as they were (every request index of short histories, once each)
+    fl = []
+    for h in [random_history(rnd).split(",")[:rnd.choice([3, 6, 10])] for _ in range(40 if ctx.tier == "quick" else 400)]:
+        hist = ",".join(h)
+        for k in range(0, 2 * len(h) + 2):
+            fl.append("alloc %d %d -1 %s" % (k, rnd.randrange(2), hist))
+
+    def relf(line, c):
+        if c is None or c.startswith("CRASH"):
+            return None
+        return "tgchkf %s @ %s" % (line.split(" ", 4)[4].split(" ", 1)[1], c.split(" || ")[0])
+    fw.run_suite(ctx, exe, "S-tg/refused-allocation", fl, "tag edit history under allocation failure", relcheck=relf)
     fw.conclude(ctx, broken)
 
 
